@@ -94,6 +94,20 @@ def compRecord (r : Record) : List Verdict × List String :=
     fin ((StreamInfo.new (nthN a 0) (nthN a 1) (nthN a 2)).map fun si =>
       let si := if nthN a 3 > 0 then { si with minBlock := nthN a 3, maxBlock := nthN a 3 } else si
       ⟨some 272, some si.bits, some si.ops⟩)
+  | "streammeta" =>
+    -- a frameless stream with extra metadata blocks, built through the public constructors
+    let blocks : Option (List UnknownBlock) :=
+      if nthS a 4 = "-" then some [] else
+      ((nthS a 4).splitOn "|").mapM fun t =>
+        match t.splitOn ":" with
+        | [tag, d] => UnknownBlock.new (tag.toNat?.getD 0) (unhex d)
+        | _ => none
+    fin (do
+      let si ← StreamInfo.new (nthN a 0) (nthN a 1) (nthN a 2)
+      let si := if nthN a 3 > 0 then { si with minBlock := nthN a 3, maxBlock := nthN a 3 } else si
+      let ms ← blocks
+      let st : Stream := { info := si, metadata := ms, frames := [] }
+      some ⟨st.count, st.bits rfcCrc8 rfcCrc16, st.ops rfcCrc8 rfcCrc16⟩)
   | "streamwrite" =>
     let bytes := unhex (r.get "bytes")
     match Rfc.analyzeRec Md5.md5 bytes with
